@@ -110,39 +110,61 @@ def expected_read(sim, cfg, vis, op):
             'other_cls': other_cls, 'earlier_only': earlier_only}
 
 
-def check_returned(sim, cfg, op, opi, got, exp, viol, tag=''):
+def check_returned(sim, cfg, op, opi, got, exp, viol, tag='', lossy=None):
     """Compare a returned read_data dict with the expectation. Returns the
-    number of arrays compared."""
+    number of arrays compared.
+
+    lossy: None, or a list that collects what was *missing* (iterations,
+    columns, None entries).  Used after an injected I/O error: from then on a
+    call may lose data or raise, but whatever it returns must still be right
+    (DESIGN 11.2)."""
     rl = op['rl']
     n_cmp = 0
     got_its = [int(x) for x in got.get('it', [])]
-    if got_its != exp['exp_its']:
-        viol.append({'sig': f'read{tag}:it_column', 'op': opi,
-                     'msg': f'op#{opi} read_data({_fmt(op)}) returned it='
-                            f'{got_its}; on disk: {exp["exp_its"]}'})
-        return 0
+    exp_its = exp['exp_its']
+    if got_its != exp_its:
+        if lossy is not None and set(got_its) <= set(exp_its) \
+                and got_its == [i for i in exp_its if i in got_its]:
+            lossy.append('iterations_missing')
+            exp_its = got_its
+        else:
+            viol.append({'sig': f'read{tag}:it_column', 'op': opi,
+                         'msg': f'op#{opi} read_data({_fmt(op)}) returned it='
+                                f'{got_its}; on disk: {exp["exp_its"]}'})
+            return 0
     if exp['comps']:
-        exp_t = [sim.time_of(i) for i in exp['exp_its']]
+        exp_t = [sim.time_of(i) for i in exp_its]
         got_t = [None if x is None else float(x) for x in got.get('t', [])]
         if got_t != exp_t:
-            viol.append({'sig': f'read{tag}:t_column', 'op': opi,
-                         'msg': f'op#{opi} read_data({_fmt(op)}) t={got_t} '
-                                f'expected {exp_t} for it={exp["exp_its"]}'})
+            if lossy is not None and len(got_t) == len(exp_t) and all(
+                    g is None or g == e for g, e in zip(got_t, exp_t)):
+                lossy.append('t_missing')
+            else:
+                viol.append({'sig': f'read{tag}:t_column', 'op': opi,
+                             'msg': f'op#{opi} read_data({_fmt(op)}) t='
+                                    f'{got_t} expected {exp_t} for it='
+                                    f'{exp_its}'})
     for an, ev in exp['comps']:
         if an not in got:
+            if lossy is not None:
+                lossy.append('column_missing')
+                continue
             viol.append({'sig': f'read{tag}:missing_var', 'op': opi,
                          'msg': f'op#{opi} read_data({_fmt(op)}) has no '
                                 f'column {an!r}; keys {sorted(got)}'})
             continue
         col = got[an]
-        if len(col) != len(exp['exp_its']):
+        if len(col) != len(exp_its):
             viol.append({'sig': f'read{tag}:column_length', 'op': opi,
                          'msg': f'op#{opi} column {an!r} has {len(col)} '
-                                f'entries for {len(exp["exp_its"])} its'})
+                                f'entries for {len(exp_its)} its'})
             continue
-        for n, iit in enumerate(exp['exp_its']):
+        for n, iit in enumerate(exp_its):
             r = exp['chosen'][iit]
             if col[n] is None:
+                if lossy is not None:
+                    lossy.append('none_entry')
+                    continue
                 viol.append({'sig': f'read{tag}:none_entry', 'op': opi,
                              'msg': f'op#{opi} read_data({_fmt(op)}) '
                                     f'returned None for {an!r} it={iit} '
@@ -151,6 +173,15 @@ def check_returned(sim, cfg, op, opi, got, exp, viol, tag=''):
             truth = sim.truth_array(ev, iit, rl, r)
             kind, msg = diff_kind(col[n], truth, ev, iit, rl, r)
             n_cmp += 1
+            if kind == 'wrong_restart' and lossy is not None:
+                # a catalogue built while a file was unreadable lacks that
+                # restart's record of the iteration: the earlier restart's
+                # data for it is stale, not foreign
+                older = sim.truth_array(ev, iit, rl, None, all_restarts=True)
+                if any(r2 < r and np.array_equal(np.asarray(col[n]), a2)
+                       for r2, a2 in older):
+                    lossy.append('older_restart_served')
+                    continue
             if kind is not None:
                 viol.append({
                     'sig': f'read{tag}:wrong_cells:{kind}', 'op': opi,
